@@ -46,10 +46,13 @@ def make_file(rng, state):
     if state == "new":
         Tdf.new(path)
         return path, set()
-    nlive = {"one": 1, "some": 4, "full": 3}[state]
-    n = {"one": 14, "some": 6, "full": 3}[state]
+    nlive = {"one": 1, "some": 4, "full": 3, "holes": 4, "slack": 3}[state]
+    n = {"one": 14, "some": 6, "full": 3, "holes": 7, "slack": 6}[state]
     seed = rng.getrandbits(32)
-    data, m = C.make_initial(random.Random(seed), n, nlive, 0.0, True)
+    r2 = random.Random(seed)
+    data, m = C.make_initial(r2, n, nlive, 0.0, True, slack=(state == "slack"))
+    if state == "holes":     # unused slots in front of used ones: a well-formed file the library reads and refuses to extend
+        data, m = C.punch_hole(data, m, r2.randrange(3), r2.choice([1, 2]))
     with open(path, "wb") as f:
         f.write(data)
     return path, {rc.CODE_TYPES[t] for t in m.types() if t in rc.CODE_TYPES}
@@ -171,12 +174,25 @@ class Session:
 
     def enter(self):
         self._phase("enter")
+        before = sha(self.path)
         self.t.__enter__()
         self.inside = True
         self.ctx_w = self.armed
         self._audit()
+        self.rec.count("oracle:C08.entering-a-context-is-not-a-mutation")
+        if sha(self.path) != before:
+            self.V("entering-a-context-changes-bytes", f"__enter__ changed the file (armed={self.armed})")
 
     def exit(self, exc=False):
+        before = sha(self.path)
+        try:
+            self._exit(exc)
+        finally:
+            self.rec.count("oracle:C08.leaving-a-context-is-not-a-mutation")
+            if sha(self.path) != before:
+                self.V("leaving-a-context-changes-bytes", f"__exit__ changed the file (by exception: {exc})")
+
+    def _exit(self, exc=False):
         if exc:
             try:
                 raise Boom("left by exception")
@@ -300,7 +316,7 @@ def setup_mode(s: Session, mode):
 def shard_matrix(desc, rec):
     io_audit.install()
     rng = random.Random(desc["seed"] * 41 + 3)
-    for state in ("new", "one", "some", "full"):
+    for state in ("new", "one", "some", "full", "holes", "slack"):
         for mode in MODES:
             for kind_, names in (("mut", MUTATORS), ("read", READERS)):
                 for name in names:
@@ -318,14 +334,14 @@ def shard_matrix(desc, rec):
                     finally:
                         s.close()
                         os.unlink(path)
-    rec.exhaustive["8 mutators + 20 readers x 6 access modes x 4 file states"] = True
+    rec.exhaustive["8 mutators + 20 readers x 6 access modes x 6 file states"] = True
 
 
 def shard_interleave(desc, rec):
     io_audit.install()
     rng = random.Random(desc["seed"] * 43 + desc.get("shard", 0))
     for i in range(desc["n"]):
-        state = rng.choice(["new", "one", "some", "full"])
+        state = rng.choice(["new", "one", "some", "full", "holes", "slack"])
         path, present = make_file(rng, state)
         steps = []
         case = {"driver": "access", "state": state, "steps": steps, "seed": desc["seed"], "index": i}
@@ -364,7 +380,7 @@ def M(s): os.write(mark, ("VFMARK " + s + "\n").encode())
 rng = random.Random(int(os.environ["VF_SEED"]))
 rec = Recorder("C08", "thorough", 0)
 for i in range(int(os.environ["VF_N"])):
-    state = rng.choice(["one", "some", "new"])
+    state = rng.choice(["one", "some", "new", "holes"])
     path, present = A.make_file(rng, state)
     M("FILE " + path)
     s = A.Session(rec, path, present, {})
@@ -646,6 +662,68 @@ def shard_create_copy(desc, rec):
             elif os.path.exists(p):
                 os.unlink(p)
         sub.rmdir()
+    # targets that already exist under *another spelling*: the source itself, a dotted path to it, a hard link or a
+    # symbolic link to it (copy), or such a path to some existing file (new).  All are existing targets.
+    for i in range(desc.get("n_alias", max(8, desc["n"] // 8))):
+        which = ["copy", "copy", "new"][i % 3]
+        how = ["same-path", "dotdot-path", "hard-link", "symlink", "relative-path"][(i // 3) % 5]
+        sub = d / f"alias_{os.getpid()}_{i}"
+        sub.mkdir()
+        (sub / "inner").mkdir()
+        src = str(sub / "orig.tdf")
+        data0, _m = C.make_initial(rng, rng.choice([3, 14]), rng.randint(0, 3))
+        open(src, "wb").write(data0)
+        case = {"driver": "create-copy", "alias": how, "call": which, "seed": desc["seed"], "index": i}
+        rec.case({"alias": how, "w": which, "i": i}, True, sample=case if i % 7 == 0 else None)
+        cwd = os.getcwd()
+        if how == "same-path":
+            target = src
+        elif how == "dotdot-path":
+            target = str(sub / "inner" / ".." / "orig.tdf")
+        elif how == "hard-link":
+            target = str(sub / "link.tdf")
+            os.link(src, target)
+        elif how == "symlink":
+            target = str(sub / "sym.tdf")
+            os.symlink(src, target)
+        else:
+            os.chdir(sub)
+            target = "orig.tdf"
+        io_audit.watch(src)
+        io_audit.drain()
+        io_audit.phase("alias:" + which)
+        err = res = None
+        try:
+            if which == "new":
+                res = Tdf.new(target)
+            else:
+                a = Tdf(src)
+                if rng.random() < 0.5:
+                    res = a.copy(target)
+                else:
+                    with a:
+                        res = a.copy(target)
+        except Exception as e:
+            err = e
+        finally:
+            os.chdir(cwd)
+        opens = io_audit.drain()
+        io_audit.unwatch(src)
+        rec.count(f"c17:alias:{which}:{how}")
+        rec.count("oracle:C17.existing-target-refused")
+        if not isinstance(err, FileExistsError):
+            V(f"{which}:existing-target-under-another-spelling-not-refused",
+              f"{which} onto {how} of an existing file: {'returned ' + type(res).__name__ if err is None else type(err).__name__ + ': ' + str(err)}", case)
+        if open(src, "rb").read() != data0:
+            V(f"{which}:existing-target-clobbered", f"[{how}] the existing file changed", case)
+        if any(w for (_p, _m2, _f, w, _ph) in opens):
+            V(f"{which}:existing-target-opened-for-writing", f"[{how}] {opens}", case)
+        names = sorted(p_.name for p_ in sub.iterdir())
+        want = sorted({"inner", "orig.tdf"} | ({os.path.basename(target)} if how in ("hard-link", "symlink") else set()))
+        if names != want:
+            V(f"{which}:creates-or-removes-other-files", f"[{how}] directory holds {names}, expected {want}", case)
+        import shutil as _sh
+        _sh.rmtree(sub, ignore_errors=True)
     # opening bad paths
     for i in range(desc.get("n_open", 40)):
         what = ["absent", "empty", "garbage", "short-signature", "signature-prefix-only", "almost-signature"][i % 6]
